@@ -211,7 +211,7 @@ RANGES = {'Angular': (-6.0, 6.0), 'Temperature': (-400.0, 1000.0), 'Pressure': (
           'Velocity': (-1e4, 1e4), 'Weight': (-1e4, 1e4)}
 
 
-@harness('C07.bare', 'C07', configs=_cfg_bare, functions=FUNCS, engine_opts={'div_check': True}, cost=2,
+@harness('C07.bare', 'C07', configs=_cfg_bare, functions=FUNCS, engine_opts={'div_check': True, 'pin_check': True}, cost=2,
          must_reach=['check:bare_equals_explicit', 'both_constructed'],
          bounds='39 float-or-quantity parameters x every unit of the slot dimension as preferred unit; the bare number is symbolic over the '
                 'whole stated range INCLUDING 0 and negatives; objects compared field by field (terms); loop-free',
@@ -246,7 +246,7 @@ def _cfg_explicit(tier):
 PRESETS = ['loadImperialUnits', 'loadMetricUnits', 'loadMixedUnits']
 
 
-@harness('C07.explicit', 'C07', configs=_cfg_explicit, functions=FUNCS, engine_opts={'div_check': True}, cost=2,
+@harness('C07.explicit', 'C07', configs=_cfg_explicit, functions=FUNCS, engine_opts={'div_check': True, 'pin_check': True}, cost=2,
          must_reach=['check:explicit_independent_of_preference'],
          bounds='the same 39 parameters given as an explicit quantity (symbolic magnitude, every unit) under two different preferred units of '
                 'the slot and under the three shipped presets: identical terms (display units of derived fields may differ, magnitudes may not)')
